@@ -121,6 +121,11 @@ def rule_reader(ctx):
     ctx.check(ctype, "R1", "add_bytes:handshake-type", "parse only records of content type 0x16", "record content type is not checked before parsing", ctx.loc(b, blk))
     ctx.check(cap is not None and cap <= 64 * 1024 + 5, "R4", "add_bytes:cap", "records above %s bytes refused before parsing" % cap,
               "no size cap (<= 64 KiB + 5) dominates the parse (cap=%s)" % cap, ctx.loc(b, blk))
+    # .. and the cap is no tighter than the protocol allows: a TLSPlaintext record carries up to 2^14 bytes, so `needed` (5 header bytes +
+    # record length) of a legal ClientHello record reaches 16389
+    ctx.check(cap is None or cap >= (1 << 14) + 5, "R4", "add_bytes:cap-admits-legal-records", "largest legal record (2^14 + 5 header bytes) passes the cap %s" % cap,
+              "records are refused above %s bytes (header included), but a legal handshake record has up to 16384 + 5: a maximum-size ClientHello is dropped as "
+              "`too large` and the connection gets no fingerprint" % cap, ctx.loc(b, blk))
     # over-size path: reset + Err
     big = False
     for (rb, j, term, _c) in TB.return_sites(b, P):
@@ -405,7 +410,14 @@ def rule_parallel(ctx):
     C11.rule_R1(R.Retag(ctx, "C11."), only=("TlsClientHelloReader",))
 
 
+def rule_framing(ctx):
+    """segments reach the reader only if the frame is interpreted as what it is: the documented link-layer order (shared with C15.R9)"""
+    from . import _endpoints as E
+    E.link_layer_order(ctx, ctx.program, "R3", ("huginn_net_tls",))
+
+
 def run(ctx):
+    rule_framing(ctx)
     rule_parallel(ctx)
     rule_dispatch(ctx)
     rule_reset(ctx)
